@@ -36,6 +36,10 @@ impl Impl for ForeignStrict {
     const NAME: &'static str = "ForeignStrict";
     const STRUCTURED: bool = false;
 }
+impl Impl for ForeignRefusing {
+    const NAME: &'static str = "ForeignRefusing";
+    const STRUCTURED: bool = false;
+}
 
 fn bytes_u8<M: ShortMessage>(m: &M) -> (u8, u8, u8) {
     let b = m.to_bytes();
@@ -725,6 +729,8 @@ fn c03_from<X: Impl>(x: &X, reference: &Obs, s: u8, d1: u8, d2: u8, bad: &mut Ve
     // conversion INTO a third-party type whose own from_bytes is stricter than the provided one:
     // to_other / from_other must not route through overridable methods
     c03_convert::<X, ForeignStrict>(x, &ox, bad);
+    // ... and into one whose from_bytes refuses everything
+    c03_convert::<X, ForeignRefusing>(x, &ox, bad);
 }
 
 pub fn c03_triple(chk: &Check, s: u8, d1: u8, d2: u8) {
@@ -1189,12 +1195,14 @@ fn unwind_probe(chk: &Check) {
 }
 
 pub fn run_c06(chk: &Check) {
-    chk.rule("every argument tuple of the 19 specific constructors, all 23 types x full 16x128x128 (or 128x128) data grid for the three generic constructors, for {Raw, Structured, Foreign3, ForeignStrict (a third-party type that overrides from_bytes to refuse the undefined status bytes)}; every in-range argument tuple of the test_util shorthands against the factory call, every argument position through out-of-range values. non-trivial = distinct (implementation, constructor, argument tuple) calls that must produce at least one non-zero data byte, counted at the call site");
+    chk.rule("every argument tuple of the 19 specific constructors, all 23 types x full 16x128x128 (or 128x128) data grid for the three generic constructors, for {Raw, Structured, Foreign3, ForeignStrict (a third-party type that overrides from_bytes to refuse the undefined status bytes), ForeignRefusing (its from_bytes refuses everything)}; every in-range argument tuple of the test_util shorthands against the factory call, every argument position through out-of-range values. non-trivial = distinct (implementation, constructor, argument tuple) calls that must produce at least one non-zero data byte, counted at the call site");
     c06_factory::<RawShortMessage>(chk);
     c06_factory::<StructuredShortMessage>(chk);
     c06_factory::<Foreign3>(chk);
     // a third-party type whose own from_bytes is stricter than the provided one
     c06_factory::<ForeignStrict>(chk);
+    // ... and one whose from_bytes refuses everything
+    c06_factory::<ForeignRefusing>(chk);
     c06_test_util(chk);
     unwind_probe(chk);
     chk.add_nontrivial(C06_NONZERO.load(Ordering::Relaxed));
